@@ -7,6 +7,7 @@ command/sql/processor.go by the C14 correspondence run. Helper lemmas:
 RqModel/Lemmas/Rewrite.lean.
 -/
 import RqModel.Lemmas.Rewrite
+import RqModel.Lemmas.RewriteAllowed
 namespace C14
 open RqModel.Rewrite
 
@@ -219,6 +220,17 @@ example :
       (.cons (.ord (.cons (.call "random" .nil .nil) .nil)) .nil)))))
     clean false stmt = false ∧ clean false (rewrite c stmt).1 = true ∧ (rewrite c stmt).2.modified = true := by
   decide
+
+/-! ### nothing else changes -/
+
+/-- The rewritten statement differs from the original ONLY by the replacements the property asks
+for: random() / randomblob(literal) outside ORDER BY replaced by a literal (a blob of exactly the
+requested number of bytes), `now` in a time-value position replaced by the pinned instant, the
+pinned instant supplied where the time value was absent. Every other node, name, operator, literal
+and the order and number of children are untouched; nothing inside ORDER BY terms loses its
+random() calls. For every statement tree, flag setting, clock value and random source. -/
+theorem only_allowed_changes (c : Cfg) (n : Node) : allowed c false n (rewrite c n).1 = true :=
+  walk_allowed c n {} false (by decide)
 
 /-! ### statements without such calls are replicated unchanged -/
 
